@@ -36,8 +36,8 @@ type Thread struct {
 	Panic   any    // non-nil if the thread died with an un-recovered panic
 	Goexit  bool
 	Steps   int
-	VC      []uint32 // vector clock (HB monitor)
-	Pending any      // value of the channel send the thread is parked in front of (nil otherwise)
+	VC      []uint32    // vector clock (HB monitor)
+	Pending any         // value of the channel send the thread is parked in front of (nil otherwise)
 	forced  *forcedCase // a rendezvous completed by the counterpart while this thread was blocked
 }
 
